@@ -257,6 +257,12 @@ func (w *World) VerifyFunc(fs *FuncSpec) {
 		}
 	}
 	for n := range fs.Loops {
+		if fi.NLoops == 0 {
+			// the (changed) function has no loop left: its loop clauses have nothing to attach to and
+			// are ignored; every other clause still becomes an obligation
+			w.notef("%s: contract names loop %d but the function has no loops: loop clauses ignored", fi.Key, n)
+			continue
+		}
 		if n < 1 || n > fi.NLoops {
 			w.errorf("%s: contract names loop %d but the function has %d loops", fi.Key, n, fi.NLoops)
 			return
